@@ -28,8 +28,8 @@ func c19SeqCases(tier string) int {
 
 func init() {
 	fw.Register(&fw.Prop{
-		ID:   "C19",
-		Rule: "seq: PRNG sequences (length 1..64) of typed writes (8/16/32/64/128-bit, char, raw bytes 0..40, align) with boundary-biased values, read back with the matching reads while checking value, order, Offset() advance and Length(); slice: every base offset 0..63 x inner offset 0..63 with nested SliceDecoder depth 1..3 and rewind 0..4 followed by SkipAlign; header: Header.Decode on every input length 0..16 with PRNG and boundary bytes. distinct = hash of the op sequence / (base, inner, depth, rewind) / input; all are non-trivial except empty sequences",
+		ID:       "C19",
+		Rule:     "seq: PRNG sequences (length 1..64) of typed writes (8/16/32/64/128-bit, char, raw bytes 0..40, align) with boundary-biased values, read back with the matching reads while checking value, order, Offset() advance and Length(); slice: every base offset 0..63 x inner offset 0..63 with nested SliceDecoder depth 1..3 and rewind 0..4 followed by SkipAlign; header: Header.Decode on every input length 0..16 with PRNG and boundary bytes. distinct = hash of the op sequence / (base, inner, depth, rewind) / input; all are non-trivial except empty sequences",
 		NumCases: func(tier string, seed uint64) int { return c19SeqCases(tier) + 64 + 17 },
 		Gen: func(tier string, seed uint64, i int) any {
 			ns := c19SeqCases(tier)
